@@ -14,21 +14,36 @@ from .cachefam import (CACHES_MOD, CacheFacts, membership_polarity, rule_coheren
 
 def run(prog: Program, rep: Report):
     cf = CacheFacts(prog, "LFUCache")
-    rule_value_stored(prog, rep, cf, "C07.R1")
-    rule_invalidation(prog, rep, cf, "C07.R2")
-    rule_coherence_capacity(prog, rep, cf, "C07.R3", "C07.R3c")
+    rep.attempt(lambda: rule_value_stored(prog, rep, cf, "C07.R1"))
+    rep.attempt(lambda: rule_invalidation(prog, rep, cf, "C07.R2"))
+    rep.attempt(lambda: rule_coherence_capacity(prog, rep, cf, "C07.R3", "C07.R3c"))
     helper, count_field = find_increment_helper(prog, cf)
-    r4_counts(prog, rep, cf, helper, count_field)
-    r5_helper(prog, rep, cf, helper, count_field)
-    r6_item_layout(prog, rep, cf, count_field)
-    rule_list_ops(prog, rep, cf, "C07.R7")
-    rule_lookup_source(prog, rep, cf, "C07.R8")
+    rep.attempt(lambda: r4_counts(prog, rep, cf, helper, count_field))
+    rep.attempt(lambda: r5_helper(prog, rep, cf, helper, count_field))
+    rep.attempt(lambda: r6_item_layout(prog, rep, cf, count_field))
+    rep.attempt(lambda: rule_list_ops(prog, rep, cf, "C07.R7"))
+    rep.attempt(lambda: rule_lookup_source(prog, rep, cf, "C07.R8"))
     from .memo import public_entry_points, rule_derived_state
-    rule_derived_state(prog, rep, "C07.R9", cf.cls, {cf.dict_field, cf.list_field}, public_entry_points(prog, cf.cls), config={cf.cap_field},
+    rep.attempt(lambda: rule_derived_state(prog, rep, "C07.R9", cf.cls, {cf.dict_field, cf.list_field}, public_entry_points(prog, cf.cls), config={cf.cap_field},
                        what="a snapshot of the order, a remembered node or a bound method of the list must not survive a store, delete, "
-                            "eviction or clear")
+                            "eviction or clear"))
     from .ownership import rule_no_class_state
-    rule_no_class_state(prog, rep, "C07.R10", [cf.cls, cf.lf.lst])
+    rep.attempt(lambda: rule_no_class_state(prog, rep, "C07.R10", [cf.cls, cf.lf.lst]))
+    from .mixins import rule_mixin_surface
+    rep.attempt(lambda: rule_mixin_surface(prog, rep, "C07.R11", [cf.cls]))
+    from .cachefam import rule_accepts_capacity
+    rep.attempt(lambda: rule_accepts_capacity(prog, rep, cf, "C07.R14"))
+    from .cachefam import rule_value_parametric
+    item_cls = prog.maybe_cls("Item", CACHES_MOD)
+    vfields = set(_dataclass_fields(item_cls)) - {count_field} if item_cls is not None else set()
+
+    def is_value(e, f, flow):
+        # <node>.data.<field of Item other than the count and the key>: decided by name, the key field is compared not truth-tested
+        return isinstance(e, ast.Attribute) and e.attr in vfields and e.attr != "key" and isinstance(e.value, ast.Attribute) \
+            and e.value.attr == cf.lf.payload
+    rep.attempt(lambda: rule_value_parametric(prog, rep, cf, "C07.R13", is_value, "<node>.data.value"))
+    from .mixins import rule_fresh_iterator
+    rep.attempt(lambda: rule_fresh_iterator(prog, rep, "C07.R12", [cf.cls]))
 
 
 def find_increment_helper(prog, cf: CacheFacts):
@@ -55,6 +70,14 @@ def find_increment_helper(prog, cf: CacheFacts):
     raise AnalysisError("LFUCache: increment helper (node.<payload>.<count> += ...) not found")
 
 
+def _tests_self(test, f) -> bool:
+    """the membership test has the cache object itself as its container: `k in self`, `k not in self`, `not (k in self)`"""
+    if isinstance(test, ast.UnaryOp) and isinstance(test.op, ast.Not):
+        return _tests_self(test.operand, f)
+    return isinstance(test, ast.Compare) and len(test.ops) == 1 and isinstance(test.ops[0], (ast.In, ast.NotIn)) \
+        and isinstance(test.comparators[0], ast.Name) and test.comparators[0].id == f.self_name
+
+
 class _IncCount(Client):
     """state = (number of increment-helper calls on this path (saturating at 2), key present?)"""
 
@@ -73,9 +96,17 @@ class _IncCount(Client):
         n, present = state
         pol = membership_polarity(self.cf, test, self.key, ctx.func)
         if pol is not None:
-            yes, no = (n, True), (n, False)
+            # `k in self` on a class without a __contains__ of its own is Mapping.__contains__: it runs self[k], and a successful
+            # look-up counts a use
+            extra = 1 if _tests_self(test, ctx.func) and self.lookup_counts else 0
+            yes, no = (min(2, n + extra), True), (n, False)
             return ((yes,), (no,)) if pol else ((no,), (yes,))
         return (state,), (state,)
+
+    @property
+    def lookup_counts(self):
+        own = self.cf.P.resolve(self.cf.cls, "__contains__")
+        return own is None or getattr(own.cls, "is_external", False)
 
     def event(self, kind, node, state, ctx):
         n, present = state
@@ -170,11 +201,15 @@ def r4_counts(prog, rep: Report, cf: CacheFacts, helper: Func, count_field: str)
     finals = ex.normal | ex.ret
     pres = {s[0] for s in finals if s[1] is True}
     absent = {s[0] for s in finals if s[1] is False}
+    via_self = ""
+    if any(isinstance(n, ast.Compare) and _tests_self(n, f) for n in ast.walk(f.node)) and it.client.lookup_counts:
+        via_self = (" (`in self` on a class without its own __contains__ is Mapping.__contains__, which runs self[k]: the look-up "
+                    "already counted one use)")
     if not pres or not absent:
         rep.unrec("C07.R4", f, "store-increments", "no membership test on the key parameter found in __setitem__")
     else:
         rep.check("C07.R4", f, "store-present-increments-once", pres == {1},
-                  "store to a present key increments once", f"store to a present key increments {sorted(pres)} times",
+                  "store to a present key increments once", f"store to a present key increments {sorted(pres)} times" + via_self,
                   scenario="c[k]=v on a present key must count as one use")
         rep.check("C07.R4", f, "store-new-no-increment", absent == {0},
                   "insertion does not call the increment helper (count set to 1 directly)",
